@@ -63,6 +63,12 @@ pub struct Run {
     pub delay_point: u32,
     #[serde(default)]
     pub delay_us: u64,
+    /// C08 race: scheduling requests issued from a second thread through a `Scheduler` clone while
+    /// the main thread executes `cmds`
+    #[serde(default)]
+    pub xsched: Vec<Value>,
+    #[serde(default)]
+    pub x_gap_us: u64,
 }
 
 struct DelayHooks {
@@ -584,6 +590,54 @@ fn driver_sched(w: &mut World, c: &Value) -> &'static str {
     }
 }
 
+/// A scheduling request from the second thread (model-input events only), NOT under the log lock.
+fn xthread_sched(
+    sh: &Shared,
+    sched: &Scheduler,
+    addrs: &HashMap<String, Address<ScriptModel>>,
+    c: &Value,
+) -> &'static str {
+    let kind = s(c, "kind");
+    let abs = b(c, "abs");
+    let d = u(c, "d");
+    let per = u(c, "per");
+    let slot = s(c, "slot");
+    let prog = u(c, "prog") as u32;
+    let payload = Payload { prog, from: "g:drv".to_string(), tok: Token::new(K_PAYLOAD, &sh.counters) };
+    let addr = addrs.get(&s(c, "target")).unwrap().clone();
+    macro_rules! go {
+        ($dl:expr) => {
+            match kind.as_str() {
+                "once" => sched_outcome(&sched.schedule_event($dl, ScriptModel::handle, payload, &addr)),
+                "keyed" => {
+                    let r = sched.schedule_keyed_event($dl, ScriptModel::handle, payload, &addr);
+                    let out = sched_outcome(&r);
+                    if let Ok(k) = r {
+                        sh.slots.lock().unwrap().insert(slot, k);
+                    }
+                    out
+                }
+                "periodic" => sched_outcome(&sched.schedule_periodic_event(
+                    $dl, sh.dur_of(per), ScriptModel::handle, payload, &addr)),
+                _ => {
+                    let r = sched.schedule_keyed_periodic_event(
+                        $dl, sh.dur_of(per), ScriptModel::handle, payload, &addr);
+                    let out = sched_outcome(&r);
+                    if let Ok(k) = r {
+                        sh.slots.lock().unwrap().insert(slot, k);
+                    }
+                    out
+                }
+            }
+        };
+    }
+    if abs {
+        go!(sh.time_of(d))
+    } else {
+        go!(sh.dur_of(d))
+    }
+}
+
 /// Executes one run; events are written to `out` as they are produced.
 pub fn execute(bench: &Bench, run: &Run, out: &mut dyn Write, start: &Instant) {
     writeln!(
@@ -601,6 +655,27 @@ pub fn execute(bench: &Bench, run: &Run, out: &mut dyn Write, start: &Instant) {
     let threads_before = thread_count();
     let mut w = build(bench, run, out);
     let sh = w.sh.clone();
+    let xthread = if run.xsched.is_empty() {
+        None
+    } else {
+        let reqs = run.xsched.clone();
+        let gap = run.x_gap_us;
+        let sched = w.scheduler.clone();
+        let addrs = w.addrs.clone();
+        let sh = sh.clone();
+        Some(std::thread::spawn(move || {
+            for c in reqs.iter() {
+                if gap > 0 {
+                    std::thread::sleep(Duration::from_micros(gap));
+                }
+                let mut evs = c.clone();
+                evs["ev"] = json!("xs");
+                sh.log.lock().unwrap().push(evs);
+                let out = xthread_sched(&sh, &sched, &addrs, c);
+                sh.log.lock().unwrap().push(json!({"ev": "xe", "out": out}));
+            }
+        }))
+    };
     for c in run.cmds.iter() {
         beat(start, 10_000 + 2 * SLEEP_OP_MS);
         let name = s(c, "c");
@@ -699,6 +774,10 @@ pub fn execute(bench: &Bench, run: &Run, out: &mut dyn Write, start: &Instant) {
             other => panic!("harness: unknown command {}", other),
         }
     }
+    if let Some(h) = xthread {
+        let _ = h.join();
+    }
+    flush(&sh, out);
     beat(start, 20_000);
     // C19: dropping the simulation (with its scheduler handle, addresses and event sources) must
     // return, release every model, message and handler future exactly once and join the workers.
